@@ -32,6 +32,7 @@ func init() {
 		}
 		v := px.tt.tVar(name, 64)
 		px.vars = append(px.vars, v)
+		px.ensureDefined(v)
 		px.assume(px.tt.and(px.tt.cmp(">=", true, v, px.tt.tConst(uint64(lo), 64)), px.tt.cmp("<=", true, v, px.tt.tConst(uint64(hi), 64))))
 		return sym{t: v, kind: types.Int, px: px}
 	}
@@ -39,12 +40,14 @@ func init() {
 		px := fr.i.px
 		v := px.tt.tVar(px.freshName(a[0].(string)), 0)
 		px.vars = append(px.vars, v)
+		px.ensureDefined(v)
 		return sym{t: v, kind: types.Bool, px: px}
 	}
 	h["vByte"] = func(fr *frame, a []value) value {
 		px := fr.i.px
 		v := px.tt.tVar(px.freshName(a[0].(string)), 8)
 		px.vars = append(px.vars, v)
+		px.ensureDefined(v)
 		lo, hi := uint64(a[1].(uint8)), uint64(a[2].(uint8))
 		px.assume(px.tt.and(px.tt.cmp(">=", false, v, px.tt.tConst(lo, 8)), px.tt.cmp("<=", false, v, px.tt.tConst(hi, 8))))
 		return sym{t: v, kind: types.Uint8, px: px}
@@ -59,6 +62,7 @@ func init() {
 		for i := 0; i < n; i++ {
 			v := px.tt.tVar(fmt.Sprintf("%s_%d", base, i), 8)
 			px.vars = append(px.vars, v)
+			px.ensureDefined(v)
 			px.assume(px.tt.and(px.tt.cmp(">=", false, v, px.tt.tConst(lo, 8)), px.tt.cmp("<=", false, v, px.tt.tConst(hi, 8))))
 			s.b = append(s.b, sym{t: v, kind: types.Uint8, px: px})
 		}
